@@ -7,6 +7,8 @@ use std::io::{self, IsTerminal as _};
 use self::argument::Argument;
 use self::stdin::Stdin;
 use self::terminal::Terminal;
+#[cfg(lace_verif)]
+pub use self::terminal::Terminal as VerifTerminal;
 use crate::{dprint, dprintln};
 
 /// Must be ASCII to ensure `.len() == .chars().count()`
